@@ -58,6 +58,23 @@ def utf8RuneStart (b : Int) : Bool := b % 256 / 64 != 2
 
 def utf8RuneCount (s : BStr) : Int := (rangeStr s).length
 
+/-- `strings.Join(parts, sep)` -/
+def stringsJoin {α} (parts : List (List α)) (sep : List α) : List α :=
+  match parts with
+  | [] => []
+  | [p] => p
+  | p :: q :: ps => p ++ sep ++ stringsJoin (q :: ps) sep
+/-- `strings.Split(s, sep)` for a one-byte separator (other separators: outside the fragment, run-time panic of the translation) -/
+def stringsSplitB1 (s : BStr) (c : UInt8) : List BStr :=
+  let rec go : BStr → BStr → List BStr
+    | [], cur => [cur.reverse]
+    | x :: rest, cur => if x == c then cur.reverse :: go rest [] else go rest (x :: cur)
+  go s []
+def stringsSplitB (s sep : BStr) : G (List BStr) :=
+  match sep with
+  | [c] => pure (stringsSplitB1 s c)
+  | _ => throw .panic
+
 def stringsHasPrefix {α} [BEq α] (s pre : List α) : Bool := pre.isPrefixOf s
 def stringsHasSuffix {α} [BEq α] (s suf : List α) : Bool := suf.isSuffixOf s
 
